@@ -59,6 +59,20 @@ fn k_lang_und() {
     assert!(p == [0x55, 0xc4]);
 }
 
+/// BOUNDED (every valid UTF-8 string of at most 5 bytes - ASCII, 2-, 3- and 4-byte characters, any case, any length 0..5): the language
+/// packer never panics (C12) and always yields a two-byte value with a clear pad bit.
+#[kani::proof]
+#[kani::unwind(8)]
+fn kb_lang_any_utf8() {
+    let bytes: [u8; 5] = kani::any();
+    let n: usize = kani::any();
+    kani::assume(n <= 5);
+    if let Ok(s) = core::str::from_utf8(&bytes[..n]) {
+        let p = encode_language_code(s);
+        assert!(p[0] & 0x80 == 0);
+    }
+}
+
 fn any_sample() -> SampleInfo {
     // payload of 1 or 2 symbolic bytes (from_samples only looks at the length)
     let mut data = Vec::new();
